@@ -12,7 +12,6 @@ import os
 
 import numpy as np
 from hypothesis import strategies as st
-from hypothesis import currently_in_test_context, target
 
 from vq import core
 from vq.refs import c13_shift as R
@@ -259,9 +258,11 @@ def check(ctx, case):
     ey, ex = R.circ_err(r[0], exp[0], h), R.circ_err(r[1], exp[1], w)
     err = max(ey, ex)
     stage = "" if integer else (":coarse_only" if up == 1 or (up == 2 and est != "numpy") else ":upsampled")
-    ratio = _ratio(ctx, "shift:%s:%s%s" % ("int" if integer else "sub", est, stage), err, tol)
-    if not integer and not _MEASURE and currently_in_test_context():
-        target(min(ratio, 4.0), label="err/tol " + est)
+    _ratio(ctx, "shift:%s:%s%s" % ("int" if integer else "sub", est, stage), err, tol)
+    # No hypothesis.target(): with Hypothesis 6.168 the target optimiser's hill climb was observed
+    # (seed 12345) to spin for > 10 min inside cached simulations without executing a single test.
+    # The error is steered by construction instead (fractional parts at the rounding boundaries);
+    # the worst error/tolerance ratios seen are reported in the evidence under coverage.extra.
     if err > tol:
         _fail(
             "%s up=%d on a %dx%d %s image translated by %r: returned %r, expected %r (error %.3g px > %.3g px)"
